@@ -19,8 +19,25 @@ def bound_of(atom):
 class DftFlow:
     """One returning path of propagate_dft under a configuration."""
 
-    def __init__(self, repo, config, label):
+    @classmethod
+    def all(cls, repo, config, label):
+        """One flow per returning path that transforms (a guard that re-interprets an argument on some path only
+        must satisfy the contract on that path too)."""
+        first = cls(repo, config, label)
+        flows = [first]
+        for k, p in enumerate(first.candidates):
+            if p is first.path:
+                continue
+            flows.append(cls(repo, config, f'{label}, path {k + 1}', pick=p, shared=first))
+        return flows
+
+    def __init__(self, repo, config, label, pick=None, shared=None):
         self.repo, self.label = repo, label
+        if shared is not None:
+            self.f, self.paths, self.candidates = shared.f, shared.paths, shared.candidates
+            self.path = pick
+            self._collect()
+            return
         wf = repo.cls('wavefront.Wavefront')
         self.f, paths, _ = analyse(repo, 'propagate.propagate_dft', config=config,
                                    types={('sym', 'wavefront'): wf})
@@ -31,13 +48,18 @@ class DftFlow:
         self.path = None
         want_mask = config.get('mask') is not None and config.get('mask') != NONE
         from ..rules import none_state
+        self.candidates = []
         for p in self.paths:
             # with a mask the path established `mask is not None` (and used to call _mask_shape)
             masked = bool(p.calls('propagate._mask_shape')) or none_state(p, 'mask') is False
             if p.calls('fourier.dft2') and masked == want_mask:
                 self.path = p
+                self.candidates.append(p)
         if self.path is None:
             raise AnalysisError(f'propagate_dft never calls dft2 under {label}')
+        self._collect()
+
+    def _collect(self):
         p = self.path
         # inside the per-field loop the body may fork (window misses the output); keep the events of
         # the one body state that transforms, whatever statement the fork happened in
